@@ -1,5 +1,6 @@
 """C17 — DTN time conversion and formatting (K-time channel, debug + release builds, clock hook)."""
 import datetime
+import vlib
 from vlib import rnd_u64, U64
 
 THEOREMS = ["C17_unix", "C17_string_denotes", "C17_format_total", "C17_now", "C17_civil_correct"]
@@ -117,12 +118,12 @@ def oracle(line, out, mode):
             return "unix(%d) != floor(t/1000)+946684800, got %s" % (t, out)
     elif tok[0] == "TSTR":
         t = int(tok[1])
-        if t <= LAST_9999 and out != "OK x" + _rfc3339(t).encode().hex():
-            return "string(%d) is not the RFC 3339 text %s" % (t, _rfc3339(t))
+        if t <= LAST_9999 and not (out.startswith("OK x") and vlib.canon_rfc3339_hex(out[4:], suffix_ok=False) == "@%d" % (t + OFFSET_MS)):
+            return "string(%d) does not denote that instant in RFC 3339 UTC notation (e.g. %s)" % (t, _rfc3339(t))
     elif tok[0] == "TSFMT":
         t, q = int(tok[1]), int(tok[2])
-        if t <= LAST_9999 and out != "OK x" + (_rfc3339(t) + " %d" % q).encode().hex():
-            return "timestamp display wrong"
+        if t <= LAST_9999 and not (out.startswith("OK x") and vlib.canon_rfc3339_hex(out[4:]) == "@%d %d" % (t + OFFSET_MS, q)):
+            return "timestamp display does not denote (that instant, that sequence number)"
     elif tok[0] == "TICK":
         # the clock moved from FIRST to LAST (the readings actually taken) while dtn_time_now() ran: its answer must lie in between
         o = out.split(" ")
@@ -166,7 +167,9 @@ def canon(out):
             return out
         if not re.match(r"^[0-9]{4}-[0-9]{2}-[0-9]{2}T", txt):
             return "OK <text that is not an RFC 3339 date>"
-        return out
+        # an RFC 3339 date is compared by the INSTANT it denotes (the number of fraction digits is free), a sequence number behind it verbatim
+        c = vlib.canon_rfc3339_hex(out[4:])
+        return ("OK " + c) if c else out
     if out and out.startswith("OK ") and " READS " in out:
         o = out.split(" ")
         try:
